@@ -5,6 +5,8 @@ package board
 // successor position). Deliberately written without bitboard tricks or tables.
 
 import (
+	"math/bits"
+
 	. "github.com/paulsonkoly/chess-3/chess"
 	"github.com/paulsonkoly/chess-3/move"
 	"github.com/paulsonkoly/chess-3/vp"
@@ -236,15 +238,7 @@ func VpValidCore(b *Board) bool {
 	return ok
 }
 
-func vpCount(bb BitBoard) int {
-	n := 0
-	for sq := 0; sq < 64; sq++ {
-		if vpBit(bb, sq) {
-			n++
-		}
-	}
-	return n
-}
+func vpCount(bb BitBoard) int { return bits.OnesCount64(uint64(bb)) }
 
 // VpCountsOK: for each side, pawns plus the pieces that can only be promoted pawns number at most eight.
 func VpCountsOK(b *Board) bool {
